@@ -1,7 +1,7 @@
 #!/venv/bin/python
 """write /verif/seeded/SWEEP.md (development wave) and HELDOUT.md (held-out wave) from the meta.json files"""
 import json, os, glob
-rows = {'dev': [], 'heldout': [], 'heldout2': [], 'heldout3': [], 'heldout4': [], 'heldout5': [], 'heldout6': [], 'heldout7': [], 'refactor': [], 'refactor2': [], 'refactor3': [], 'refactor4': []}
+rows = {'dev': [], 'heldout': [], 'heldout2': [], 'heldout3': [], 'heldout4': [], 'heldout5': [], 'heldout6': [], 'heldout7': [], 'refactor': [], 'refactor2': [], 'refactor3': [], 'refactor4': [], 'refactor5': []}
 for d in sorted(glob.glob('/verif/seeded/C*')):
     m = json.load(open(d + '/meta.json'))
     wave = m.get('wave', 'dev')
@@ -34,15 +34,15 @@ with open('/verif/seeded/REFACTORS.md', 'w') as f:
     f.write('# Behaviour-preserving refactorings from independent sub-agents\n\n')
     f.write('Each edit was validated (the seed\'s demo prints the same digest on the clean and the patched tree; the pinned suite is unchanged). A report (exit 1) or an '
             'ANALYSIS-ERROR (exit 2) on one of them is a defect of the checker, corrected in the machinery (DESIGN sections 8 and 12). '
-            '`first evaluation`: the checks as they stood before the wave was looked at (wave 2: /verif commit d8c005c; wave 3: 37eed7a; wave 4: f408def); `now`: the committed checks.\n\n')
-    for wave, title in (('refactor', 'First wave'), ('refactor2', 'Second wave'), ('refactor3', 'Third wave'), ('refactor4', 'Fourth wave')):
+            '`first evaluation`: the checks as they stood before the wave was looked at (wave 2: /verif commit d8c005c; wave 3: 37eed7a; wave 4: f408def; wave 5: db03701); `now`: the committed checks.\n\n')
+    for wave, title in (('refactor', 'First wave'), ('refactor2', 'Second wave'), ('refactor3', 'Third wave'), ('refactor4', 'Fourth wave'), ('refactor5', 'Fifth wave')):
         rs = []
         for d in sorted(glob.glob('/verif/seeded/C*')):
             m = json.load(open(d + '/meta.json'))
             if m.get('wave') != wave:
                 continue
-            first = m.get('reported_by_initial') if wave in ('refactor2', 'refactor3', 'refactor4') else m.get('reported_by_first', m.get('reported_by_initial'))
-            first2 = m.get('reported_by_initial_exit2', []) if wave in ('refactor2', 'refactor3', 'refactor4') else m.get('reported_by_first_exit2', [])
+            first = m.get('reported_by_initial') if wave in ('refactor2', 'refactor3', 'refactor4', 'refactor5') else m.get('reported_by_first', m.get('reported_by_initial'))
+            first2 = m.get('reported_by_initial_exit2', []) if wave in ('refactor2', 'refactor3', 'refactor4', 'refactor5') else m.get('reported_by_first_exit2', [])
             now = m.get('reported_by', [])
             now2 = m.get('reported_by_exit2', [])
             rs.append((os.path.basename(d), (m.get('site', '') or '').replace('|', '/')[:60], (m.get('summary', '') or m.get('description', '') or '').replace('\n', ' ').replace('|', '/')[:170],
@@ -52,7 +52,7 @@ with open('/verif/seeded/REFACTORS.md', 'w') as f:
         nf = sum(1 for r in rs if r[3] not in ('', 'n/a') and not r[3].startswith(' exit 2'))
         ne = sum(1 for r in rs if r[3].startswith(' exit 2'))
         f.write('## %s: %d edits; now silent on %d\n\n' % (title, len(rs), sum(1 for r in rs if r[4] == 'silent')))
-        if wave in ('refactor2', 'refactor3', 'refactor4'):
+        if wave in ('refactor2', 'refactor3', 'refactor4', 'refactor5'):
             f.write('First evaluation with the frozen checks: %d reported, %d more stopped a check with exit 2.\n\n' % (nf, ne))
         else:
             f.write('First evaluation (64 of these edits, checks at /verif commit 93fdd8a): 20 reported, 26 more stopped a check with exit 2 (per-seed record not kept for this wave).\n\n')
